@@ -14,6 +14,7 @@ use serde_json::{json, Value};
 mod evalcmd;
 mod parsecmd;
 mod manifestcmd;
+mod numop;
 mod util;
 
 type Handler = fn(&Value) -> Value;
@@ -78,6 +79,7 @@ fn main() {
 		"eval" => run_lines(evalcmd::handle),
 		"parse" => run_lines(parsecmd::handle),
 		"manifest" => run_lines(manifestcmd::handle),
+		"numop" => run_lines(numop::handle),
 		"version" => println!("jrharness 1"),
 		_ => {
 			eprintln!("usage: jrharness <eval|...>");
